@@ -21,10 +21,10 @@ func init() {
 		ID:    "C05",
 		Level: "exploration",
 		Rule: "batches of type-1/type-2 requests handed to the generic batch issuer after crossing the wire (client Marshal -> BatchedTokenRequest.Unmarshal) or, every third batch, handed over in memory (where malformed elements may also be shorter than an element, empty, nil or a short view into longer storage): every sequence of length 1..3 (quick) / 1..4 (thorough) over 8 request kinds " +
-			"{type1 key A, type1 key A', type1 unknown key id, type1 malformed element (A), type1 malformed element (A'), type2 key B, type2 unknown key id, type2 malformed element} under 5 issuer configurations ({A}, {B}, {A,A',B}, and two with an always-refusing issuer of the same type and truncated key id registered before / after the real one), plus seeded sequences of length 5..40 and large batches of 63..128 requests (response lists around the 16384-byte varint boundary). " +
+			"{type1 key A, type1 key A', type1 unknown key id, type1 malformed element (A), type1 malformed element (A'), type2 key B, type2 unknown key id, type2 malformed element} under 5 issuer configurations ({A}, {B}, {A,A',B}, and two with an always-refusing issuer of the same type and truncated key id registered before / after the real one), a sweep of the unknown-key-id kinds over every truncated key id no configured issuer carries, plus seeded sequences of length 5..40 and large batches of 63..128 requests (response lists around the 16384-byte varint boundary). " +
 			"Oracle = executable model: entry i present iff some configured issuer has the request's type and last key-id byte and its own Evaluate of that request succeeds; the output decodes, has exactly n entries in order, present entries finalize under state i to a token valid under that issuer's key (circl FullEvaluate / rsa.VerifyPSS), absent ones are empty; the succeeding requests alone give an all-present batch. " +
 			"distinct_nontrivial = distinct (configuration, kind sequence) batches containing at least one failing and one succeeding request",
-		Floors:      []string{"batches_checked", "entries_present_valid", "entries_absent", "mixed_batches", "all_failing_batches", "all_succeeding_batches", "isolation_rechecked", "large_batches", "batches_handed_over_in_memory"},
+		Floors:      []string{"batches_checked", "entries_present_valid", "entries_absent", "mixed_batches", "all_failing_batches", "all_succeeding_batches", "isolation_rechecked", "large_batches", "batches_handed_over_in_memory", "unknown_key_id_sweep"},
 		Assumptions: []string{"configured issuers of one type have pairwise different last key-id bytes and unknown keys differ from all of them (truncated-id collisions are outside the statement)"},
 		Run:         runC05,
 	})
@@ -54,6 +54,8 @@ type c05World struct {
 	issB        *type2.BasicPublicIssuer
 	configs     [][]batched.Issuer
 	cfgNames    []string
+	// forceID, when set, is the truncated key id the "unknown key id" kinds carry (sweep over every value)
+	forceID *byte
 }
 
 // refusingIssuer answers for a type and key id but refuses every request
@@ -165,6 +167,9 @@ func (w *c05World) mkReq(kind c05Kind, r *core.Rand, inMemory bool) *c05Req {
 			}
 			req = &type1.BasicPrivateTokenRequest{TokenKeyID: req.TokenKeyID, BlindedReq: bad}
 		}
+		if kind == k1U && w.forceID != nil {
+			req = &type1.BasicPrivateTokenRequest{TokenKeyID: *w.forceID, BlindedReq: clone(req.BlindedReq)}
+		}
 		q.req, q.typ, q.keyID = req, 1, iss.TokenKeyID()
 		q.finalize = st.FinalizeToken
 		kid := iss.TokenKeyID()
@@ -189,6 +194,9 @@ func (w *c05World) mkReq(kind c05Kind, r *core.Rand, inMemory bool) *c05Req {
 				bad = r.Bytes(r.Of(0, 100, 255, 257))
 			}
 			req = &type2.BasicPublicTokenRequest{TokenKeyID: req.TokenKeyID, BlindedReq: bad}
+		}
+		if kind == k2U && w.forceID != nil {
+			req = &type2.BasicPublicTokenRequest{TokenKeyID: *w.forceID, BlindedReq: clone(req.BlindedReq)}
 		}
 		q.req, q.typ, q.keyID = req, 2, iss.TokenKeyID()
 		q.finalize = st.FinalizeToken
@@ -413,6 +421,22 @@ func runC05(c *core.Ctx) {
 		}
 	}
 	c.Exhaustive(fmt.Sprintf("all request-kind sequences of length 1..%d over 8 kinds under 5 issuer configurations", maxLen))
+	// every truncated key id no configured issuer carries (0x00 and 0xff included): such a request is absent, its
+	// neighbours are served
+	{
+		used := map[byte]bool{lastByte(w.issA.TokenKeyID()): true, lastByte(w.issAp.TokenKeyID()): true, lastByte(w.issB.TokenKeyID()): true}
+		for u := 0; u < 256; u++ {
+			if used[byte(u)] || !c.Next() {
+				continue
+			}
+			b := byte(u)
+			w.forceID = &b
+			w.runBatch(2, []c05Kind{k1A, k1U, k2B, k2U, k1Ap}, c.CaseRng(), false, u%3 == 1)
+			w.forceID = nil
+			c.Class("unknown_key_id_sweep")
+		}
+		c.Exhaustive("every truncated key id that no configured issuer carries, for both token types")
+	}
 	// large batches: the response list crosses the 2-byte varint boundary (16384 bytes) at 64 type-2 entries
 	for bi, size := range []int{63, 64, 65, 100, 127, 128} {
 		if !c.Next() {
